@@ -269,6 +269,10 @@ type tenv struct {
 	truth map[string]peer.ID // remote address -> identity really held there ("" = nobody may get a link)
 	recs  map[string]*g5net.Recorder
 	hist  []string
+	// reqs: every dial request an honest node made (see refusal_test.go)
+	reqs []*dialReq
+	// inboundNoted[home][remote addr]: sessions the harness opened TOWARDS the node at home from that address
+	inboundNoted map[string]map[string]int
 }
 
 func (e *tenv) logf(f string, a ...any) {
@@ -482,7 +486,7 @@ func (e *tenv) outboundAt(L *g5net.Remote, b *builtChain, pool []*keys.Identity,
 	e.logf("honest %s dials %s (required peer %q); hostile listener presents: %s", L.EP.LocalAddr(), svc, claimed.String(), b.Why)
 	dctx, cancel := context.WithTimeout(e.ctx, watchdog)
 	defer cancel()
-	lnk, _, err := L.Tpt.DialPeer(dctx, claimed, svc)
+	lnk, _, err := e.dialFrom(L, dctx, claimed, svc)
 	if dctx.Err() != nil {
 		e.r.Inconclusive(e.name + ": dial did not conclude")
 		return false
@@ -567,6 +571,7 @@ func transportCases(r *vf.Run, pool []*keys.Identity, nVariantRounds int) []tcas
 		}
 		out = append(out, overlapCases(pool, round, []string{"pconn", "conn"}, []string{"overlapping"})...)
 		out = append(out, overlapCases(pool, round, []string{"pconn"}, []string{"sequential"})...)
+		out = append(out, simultaneousOpenCases(pool, round, mk)...)
 	}
 	return out
 }
@@ -612,7 +617,7 @@ func requiredPeerCasesFor(pool []*keys.Identity, round int, reqKind string) []tc
 			e.logf("honest L: DialPeer(%s, A); A served by honest %s", reqName, tag)
 			dctx, cancel := context.WithTimeout(e.ctx, watchdog)
 			defer cancel()
-			lnk, _, err := L.Tpt.DialPeer(dctx, req, "A")
+			lnk, _, err := e.dialFrom(L, dctx, req, "A")
 			if dctx.Err() != nil {
 				e.r.Inconclusive(e.name + ": dial did not conclude")
 				return false
@@ -700,7 +705,7 @@ func requiredPeerCasesFor(pool []*keys.Identity, round int, reqKind string) []tc
 			e.logf("listener requires %s (ListenSession rpeer); honest %s dials in", reqName, tag)
 			dctx, cancel := context.WithTimeout(e.ctx, watchdog)
 			defer cancel()
-			_, _, derr := R.Tpt.DialPeer(dctx, pool[0].ID, "L-home")
+			_, _, derr := e.dialFrom(R, dctx, pool[0].ID, "L-home")
 			if dctx.Err() != nil {
 				e.r.Inconclusive(e.name + ": dial did not conclude")
 				return false
@@ -791,7 +796,7 @@ func mixedCase(r *vf.Run, pool []*keys.Identity, round int, mk func(v, ck string
 				home := fmt.Sprintf("X%d-home", i)
 				X := e.honest(home, pool[1])
 				dctx, cancel := context.WithTimeout(e.ctx, watchdog)
-				lnk, _, err := X.Tpt.DialPeer(dctx, pool[0].ID, "L-home")
+				lnk, _, err := e.dialFrom(X, dctx, pool[0].ID, "L-home")
 				cancel()
 				e.r.Count("handshakes_honest", 1)
 				if err != nil {
@@ -818,13 +823,16 @@ func mixedCase(r *vf.Run, pool []*keys.Identity, round int, mk func(v, ck string
 func runTransportCase(r *vf.Run, pool []*keys.Identity, tc tcase) {
 	ctx, cancel := context.WithCancel(context.Background())
 	defer cancel()
-	e := &tenv{r: r, ctx: ctx, n: g5net.NewSwitchNet(), pool: pool, name: tc.name, truth: map[string]peer.ID{}, recs: map[string]*g5net.Recorder{}}
+	e := &tenv{r: r, ctx: ctx, n: g5net.NewSwitchNet(), pool: pool, name: tc.name, truth: map[string]peer.ID{}, recs: map[string]*g5net.Recorder{}, inboundNoted: map[string]map[string]int{}}
 	r.Begin("transport case " + tc.name)
 	t0 := time.Now()
 	defer func() { fmt.Printf("case %-90s %6.2fs\n", tc.name, time.Since(t0).Seconds()) }() // diagnostics only
 	var complete bool
 	// every goroutine started by the case inherits the label (goroutine-state conditions)
 	g5net.WithLabel(ctx, tc.name, func(lctx context.Context) { e.lctx = lctx; complete = tc.run(e) })
+	if !e.judgeRefusals() {
+		complete = false
+	}
 	nl := e.checkLinks()
 	r.Distinct("transport_case_kinds", e.kind())
 	r.Case("T|"+tc.name, complete)
@@ -834,7 +842,7 @@ func runTransportCase(r *vf.Run, pool []*keys.Identity, tc tcase) {
 func TestCheck(t *testing.T) {
 	r := vf.Start(t, "C03", vf.Exploration)
 	defer r.Finish()
-	r.SetRule("chain cases = harness-made DER chains: every variant of {valid (own construction / package extension / critical), binding embeds another key, binding signed by another key, binding over another cert key, binding lifted from another certificate, wrong / no prefix, extension missing / other OID / empty / not ASN.1 / truncated at PRNG position / one bit flipped at PRNG position / duplicated, certificate signed by another key (same name / CA), certificate signed by another key whose signatureAlgorithm identifiers were rewritten at the ASN.1 level (both / outer only / inner only / two different ones) to an OID crypto/x509 does not know (9 OIDs incl. a PRNG arc), to an MD2/MD5/SHA-1/DSA algorithm it refuses, or to another algorithm it knows, with the stale signature or with the rewritten TBS signed again by the other key, self-signed certificate whose signature value has one bit flipped at a PRNG position / is empty / truncated / zeroed / taken from another certificate over the same key, expired, not yet valid, chain of 0 / 2 distinct / 2 equal / valid+garbage / garbage} x cert key type {P-256, P-384, Ed25519} x expected-peer constraint {none, K, another peer, and 12 well-formed ids (accepted by peer.IDFromBytes) that are no peer's id: sha2-256 multihash of K's / another key's protobuf, of K's raw key, of no key, empty digest, sha2-512 and another hash code, identity multihash embedding K's key under an unsupported key type (0, 2, 77), another key under type 3, a truncated key}; each is given to PubKeyFromCertChain (when parsable) and to the VerifyPeerCertificate callback of Identity.ConfigForPeer; chain histories = PRNG interleavings of families {honest chain H, forged chains re-using H's key extension / binding signature / TLS key / whole certificate} in the order forged* H forged+ [H forged*] per family, judged step by step by the same stateless oracle. Oracle by construction: accept <=> single self-signed cert with one binding signed by K over prefix||PKIX(cert key) and (no constraint or constraint = ID(K)); a certificate whose signature was not made by its own key over its own TBS is not self-signed whatever its algorithm identifiers say; a constraint that is no key's id refuses everybody; delivered key = K; no key on error. Transport cases = real pconn/quic transports and hostile raw quic-go endpoints (crafted tls.Config with those chains) on an in-memory switch, inbound and outbound, required-peer dial/DialSession/listen with the right and the wrong honest peer answering, the required id being X's id or one of 6 of the well-formed non-peer id shapes (nobody may be accepted), mixed sequences on one listener, PRNG histories in which an impersonator presents a certificate over its own TLS key carrying a byte copy of a running honest victim's key extension before and after the honest node had a session with that victim (inbound, outbound with / without required peer, two victims interleaved), and two DialPeer requests for one address with every ordered pair of required peers over {none, X, Y} while X resp. Y serves it, overlapping (the network holds the first dial in flight until the second request is parked behind it, detected by goroutine state) and sequential; every link reported to a TransportHandler must name the identity held at its remote address, forged endpoints must get no link. Distinct = distinct (variant, key type, flags, position, constraint, path) resp. transport case.")
+	r.SetRule("chain cases = harness-made DER chains: every variant of {valid (own construction / package extension / critical), binding embeds another key, binding signed by another key, binding over another cert key, binding lifted from another certificate, wrong / no prefix, extension missing / other OID / empty / not ASN.1 / truncated at PRNG position / one bit flipped at PRNG position / duplicated, certificate signed by another key (same name / CA), certificate signed by another key whose signatureAlgorithm identifiers were rewritten at the ASN.1 level (both / outer only / inner only / two different ones) to an OID crypto/x509 does not know (9 OIDs incl. a PRNG arc), to an MD2/MD5/SHA-1/DSA algorithm it refuses, or to another algorithm it knows, with the stale signature or with the rewritten TBS signed again by the other key, self-signed certificate whose signature value has one bit flipped at a PRNG position / is empty / truncated / zeroed / taken from another certificate over the same key, expired, not yet valid, chain of 0 / 2 distinct / 2 equal / valid+garbage / garbage} x cert key type {P-256, P-384, Ed25519} x expected-peer constraint {none, K, another peer, and 12 well-formed ids (accepted by peer.IDFromBytes) that are no peer's id: sha2-256 multihash of K's / another key's protobuf, of K's raw key, of no key, empty digest, sha2-512 and another hash code, identity multihash embedding K's key under an unsupported key type (0, 2, 77), another key under type 3, a truncated key}; each is given to PubKeyFromCertChain (when parsable) and to the VerifyPeerCertificate callback of Identity.ConfigForPeer; chain histories = PRNG interleavings of families {honest chain H, forged chains re-using H's key extension / binding signature / TLS key / whole certificate} in the order forged* H forged+ [H forged*] per family, judged step by step by the same stateless oracle. Oracle by construction: accept <=> single self-signed cert with one binding signed by K over prefix||PKIX(cert key) and (no constraint or constraint = ID(K)); a certificate whose signature was not made by its own key over its own TBS is not self-signed whatever its algorithm identifiers say; a constraint that is no key's id refuses everybody; delivered key = K; no key on error. Transport cases = real pconn/quic transports and hostile raw quic-go endpoints (crafted tls.Config with those chains) on an in-memory switch, inbound and outbound, required-peer dial/DialSession/listen with the right and the wrong honest peer answering, the required id being X's id or one of 6 of the well-formed non-peer id shapes (nobody may be accepted), mixed sequences on one listener, PRNG histories in which an impersonator presents a certificate over its own TLS key carrying a byte copy of a running honest victim's key extension before and after the honest node had a session with that victim (inbound, outbound with / without required peer, two victims interleaved), and two DialPeer requests for one address with every ordered pair of required peers over {none, X, Y} while X resp. Y serves it, overlapping (the network holds the first dial in flight until the second request is parked behind it, detected by goroutine state) and sequential, and simultaneous-open cases (the network keeps L's own dial of H in flight - selective hold by QUIC connection id - while the peer at H, a raw endpoint with Y's key, opens a session to L; then L's dial, requiring X / Y / nobody, goes through and Y answers); every dial request of an honest node is recorded with the logical clock of its transport handler (callbacks seen so far) and, once the dialing machinery is at rest (no goroutine of the case inside the dialer, a handler callback or a link tear-down on two consecutive looks), every link REPORTED established to the handler towards a dialed address must be permitted by a request made before the report (no constraint, or requiring exactly the peer the link names) or by a session the harness opened from that address: a refused dial leaves no established report, and in the simultaneous-open cases it leaves the link Y opened in place (exactly one established report for the address, no loss report for it, still the transport's link for the address; idle time-out 10 min there); every link reported to a TransportHandler must name the identity held at its remote address, forged endpoints must get no link. Distinct = distinct (variant, key type, flags, position, constraint, path) resp. transport case.")
 	r.Assume("crypto/x509, crypto/tls, crypto/ed25519 and quic-go are trusted; the harness' certificate builder is the ground truth for well-formedness")
 	r.Assume("expired / not-yet-valid certificates and bit flips in the DER header of the extension are not judged for acceptance (only: if accepted, the key is K)")
 
